@@ -134,6 +134,23 @@ ReindexedF(v, g)   == [v EXCEPT !.first = [d \in 1..Dim(v) |-> IF d <= Len(g) TH
 BlockedPre(v, a, b) == SlicedPre(v, a, b)
 BlockedF(v, a, b)   == LET s == SlicedF(v, a, b) IN [s EXCEPT !.first[1] = a]
 
+(* stenciled({a1,b1},...,{aK,bK}): the block [a1,b1) x ... x [aK,bK) of the first K dimensions, which  *)
+(* KEEPS the parent's indices (the element at index tuple t of the result is the element at t of v)    *)
+StenK(g) == Len(g) \div 2
+StenciledPre(v, g) ==
+  /\ Len(g) \in {2, 4, 6} /\ StenK(g) <= Dim(v)
+  /\ \A d \in 1..StenK(g) : v.first[d] <= g[2*d - 1] /\ g[2*d - 1] <= g[2*d] /\ g[2*d] <= v.first[d] + v.shape[d]
+StenciledF(v, g) ==
+  LET K == StenK(g) IN
+  Mk([d \in 1..Dim(v) |-> IF d <= K THEN g[2*d] - g[2*d - 1] ELSE v.shape[d]],
+     [d \in 1..Dim(v) |-> IF d <= K THEN g[2*d - 1] ELSE v.first[d]],
+     LAMBDA t : v.cell[[d \in 1..Dim(v) |-> IF d <= K THEN t[d] + (g[2*d - 1] - v.first[d]) ELSE t[d]]])
+
+(* front() / back(): the first / last item; &v then *p: the same view *)
+FrontPre(v) == Dim(v) >= 1 /\ v.shape[1] >= 1
+FrontF(v)   == IndexF(v, v.first[1])
+BackF(v)    == IndexF(v, v.first[1] + v.shape[1] - 1)
+
 (* Call syntax V(a1,...,ak): args is a sequence of triples <<kind, x, y>>;    *)
 (*   kind 0: index x       -> the dimension disappears                       *)
 (*   kind 1: range [x, y)  -> the dimension is kept with size y - x          *)
@@ -190,6 +207,10 @@ ApplyPre(v, o) ==
     [] o.op = "broadcast"   -> BroadcastAtPre(v, o.args[1])
     [] o.op = "reindexed"   -> ReindexedPre(v, o.args)
     [] o.op = "blocked"     -> BlockedPre(v, o.args[1], o.args[2])
+    [] o.op = "stenciled"   -> StenciledPre(v, o.args)
+    [] o.op = "range"       -> SlicedPre(v, o.args[1], o.args[2])
+    [] o.op \in {"front", "back"} -> FrontPre(v)
+    [] o.op = "addr"        -> Dim(v) >= 1
     [] o.op = "paren"       -> ParenPre(v, Triples(o.args))
     [] OTHER                -> FALSE
 
@@ -213,6 +234,11 @@ ApplyF(v, o) ==
     [] o.op = "broadcast"   -> BroadcastAtF(v, o.args[1])
     [] o.op = "reindexed"   -> ReindexedF(v, o.args)
     [] o.op = "blocked"     -> BlockedF(v, o.args[1], o.args[2])
+    [] o.op = "stenciled"   -> StenciledF(v, o.args)
+    [] o.op = "range"       -> SlicedF(v, o.args[1], o.args[2])
+    [] o.op = "front"       -> FrontF(v)
+    [] o.op = "back"        -> BackF(v)
+    [] o.op = "addr"        -> v
     [] o.op = "paren"       -> ParenF(v, Triples(o.args))
 
 (* semantic strides: for a dimension of size >= 2 of a non-empty view, the    *)
